@@ -36,9 +36,11 @@ func vhScalar(w int) intrinsicFn {
 			// booleans are carried as 1-bit inputs for uniform model extraction
 			bv := in.tb.Var(name, 1)
 			in.inputs = append(in.inputs, inputVar{Name: name, Terms: []*Term{bv}, Kind: "u"})
+			in.sol.ref(bv)
 			return in.tb.Eq(bv, in.tb.Const(1, 1))
 		}
 		in.inputs = append(in.inputs, inputVar{Name: name, Terms: []*Term{t}, Kind: "u"})
+		in.sol.ref(t)
 		return t
 	}
 }
@@ -47,6 +49,7 @@ func (in *Interp) symBytes(name string, n int) []*Term {
 	ts := make([]*Term, n)
 	for i := range ts {
 		ts[i] = in.tb.Var(fmt.Sprintf("%s[%d]", name, i), 8)
+		in.sol.ref(ts[i])
 	}
 	in.inputs = append(in.inputs, inputVar{Name: name, Terms: ts, Kind: "b"})
 	return ts
@@ -190,6 +193,21 @@ func baseIntrinsics() map[string]intrinsicFn {
 	}
 	m[vhPath+"Unwind"] = func(in *Interp, fn *ssa.Function, args []Value) Value {
 		in.unwind = in.concInt(args[0], "Unwind")
+		return TupleV{}
+	}
+	m[vhPath+"Abstract"] = func(in *Interp, fn *ssa.Function, args []Value) Value {
+		if in.abstract == nil {
+			in.abstract = map[string]bool{}
+		}
+		in.abstract[concStr(args[0])] = true
+		return TupleV{}
+	}
+	m[vhPath+"MakeBound"] = func(in *Interp, fn *ssa.Function, args []Value) Value {
+		in.makeBound = in.concInt(args[0], "MakeBound")
+		return TupleV{}
+	}
+	m[vhPath+"GoInline"] = func(in *Interp, fn *ssa.Function, args []Value) Value {
+		in.goInline = true
 		return TupleV{}
 	}
 	m[vhPath+"Fresh"] = func(in *Interp, fn *ssa.Function, args []Value) Value {
@@ -402,7 +420,7 @@ func (in *Interp) toGo(v Value) (interface{}, bool) {
 	}
 	// error / Stringer
 	for _, mname := range []string{"Error", "String"} {
-		if m := in.prog.LookupMethod(iv.T, nil, mname); m != nil && m.Signature.Params().Len() == 0 && m.Signature.Results().Len() == 1 && isString(m.Signature.Results().At(0).Type()) {
+		if m := in.lookupMethodByName(iv.T, mname); m != nil && m.Signature.Params().Len() == 0 && m.Signature.Results().Len() == 1 && isString(m.Signature.Results().At(0).Type()) {
 			var out interface{}
 			okk := false
 			func() {
